@@ -7,12 +7,17 @@ pub mod c01;
 pub mod c02;
 pub mod c04;
 pub mod c05;
+pub mod c06;
 pub mod c07;
 pub mod c08;
 pub mod c11;
+pub mod c12;
 pub mod c13;
 pub mod c14;
+pub mod c16;
+pub mod c17;
 pub mod c18;
+pub mod c19;
 pub mod c20;
 pub mod icommon;
 pub mod libx;
@@ -33,13 +38,18 @@ pub fn lookup(id: &str) -> Option<Prop> {
         "C03" => sigh::PROP_C03,
         "C04" => c04::PROP,
         "C05" => c05::PROP,
+        "C06" => c06::PROP,
         "C07" => c07::PROP,
         "C08" => c08::PROP,
         "C10" => sigh::PROP_C10,
         "C11" => c11::PROP,
+        "C12" => c12::PROP,
         "C13" => c13::PROP,
         "C14" => c14::PROP,
+        "C16" => c16::PROP,
+        "C17" => c17::PROP,
         "C18" => c18::PROP,
+        "C19" => c19::PROP,
         "C20" => c20::PROP,
         _ => return None,
     })
